@@ -117,31 +117,39 @@ Fixpoint run_surfaces (sfs : list surface) (sr ssr perc : tank) (mi mo : vqip) (
       end
   end.
 
+(* the routing half of Land.run: percolation to groundwater, surface and subsurface runoff to rivers and junctions, what is
+   not placed goes back into the tanks it came from (by volume share); a percolation remainder below FLOAT_ACCURACY is dropped *)
+Definition ld_route (sr ssr perc : tank) (outs : star S) : option (tank * tank * tank * star S) :=
+  let '(perc1, percolation) := t_pull_outflow perc in
+  match push_distributed S P maxiter (Some [T_GROUNDWATER]) outs percolation with
+  | None => None
+  | Some (outs1, reply, _) =>
+      let perc2 := if Qltb eps (vol reply) then fst (t_push perc1 reply true) else perc1 in
+      let '(sr1, srv) := t_pull_outflow sr in
+      let '(ssr1, ssrv) := t_pull_outflow ssr in
+      let total := vsum srv ssrv in
+      if Qlt_le_dec 0 (vol total) then
+        match push_distributed S P maxiter (Some [T_RIVER; T_NODE]) outs1 total with
+        | None => None
+        | Some (outs2, back, _) =>
+            if Qlt_le_dec 0 (vol back) then
+              let bs := vchange back (vol back * vol srv / vol total) in
+              let bss := vchange back (vol back * vol ssrv / vol total) in
+              let sr2 := if Qlt_le_dec 0 (vol bs) then fst (t_push sr1 bs true) else sr1 in
+              let ssr2 := if Qlt_le_dec 0 (vol bss) then fst (t_push ssr1 bss true) else ssr1 in
+              Some (sr2, ssr2, perc2, outs2)
+            else Some (sr1, ssr1, perc2, outs2)
+        end
+      else Some (sr1, ssr1, perc2, outs1)
+  end.
+
 Definition ld_run (l : land) (rain et0 T : Q) (tn : vec) : option land :=
   match run_surfaces (ld_surfs l) (ld_sr l) (ld_ssr l) (ld_perc l) (ld_in l) (ld_out l) (ld_outs l) rain et0 T tn with
   | None => None
   | Some (sfs, sr, ssr, perc, mi, mo, outs) =>
-      let '(perc1, percolation) := t_pull_outflow perc in
-      match push_distributed S P maxiter (Some [T_GROUNDWATER]) outs percolation with
+      match ld_route sr ssr perc outs with
       | None => None
-      | Some (outs1, reply, _) =>
-          let perc2 := if Qltb eps (vol reply) then fst (t_push perc1 reply true) else perc1 in
-          let '(sr1, srv) := t_pull_outflow sr in
-          let '(ssr1, ssrv) := t_pull_outflow ssr in
-          let total := vsum srv ssrv in
-          if Qlt_le_dec 0 (vol total) then
-            match push_distributed S P maxiter (Some [T_RIVER; T_NODE]) outs1 total with
-            | None => None
-            | Some (outs2, back, _) =>
-                if Qlt_le_dec 0 (vol back) then
-                  let bs := vchange back (vol back * vol srv / vol total) in
-                  let bss := vchange back (vol back * vol ssrv / vol total) in
-                  let sr2 := if Qlt_le_dec 0 (vol bs) then fst (t_push sr1 bs true) else sr1 in
-                  let ssr2 := if Qlt_le_dec 0 (vol bss) then fst (t_push ssr1 bss true) else ssr1 in
-                  Some (mkLD sfs sr2 ssr2 perc2 mi mo outs2)
-                else Some (mkLD sfs sr1 ssr1 perc2 mi mo outs2)
-            end
-          else Some (mkLD sfs sr1 ssr1 perc2 mi mo outs1)
+      | Some (sr', ssr', perc', outs') => Some (mkLD sfs sr' ssr' perc' mi mo outs')
       end
   end.
 
